@@ -1,6 +1,8 @@
 import Ntrip.Guards.FramingConsts
 import Ntrip.Guards.Framing
 import Ntrip.Properties.C10
+import Ntrip.Guards.Apps_reader
+import Ntrip.Guards.Apps_fanout
 import Ntrip.Generated.Consts
 import Ntrip.Generated.Layouts
 import Ntrip.Generated.Skeletons
@@ -29,5 +31,16 @@ theorem tie_framing : type_of% Ntrip.Guards.framing := Ntrip.Guards.framing
 
 /-- Tie T1: the literals of the framing model are the constants of the source. -/
 theorem tie_framing_consts : type_of% Ntrip.Guards.framing_consts := Ntrip.Guards.framing_consts
+
+/-- Tie T1 (guards): the read loop the application's input goes through (`file_handler.Handle`):
+    its conditions and loops are those of the reader model. -/
+theorem tie_guards_reader : type_of% Ntrip.Guards.reader := Ntrip.Guards.reader
+
+/-- Tie T1 (guards): the fan-out (`appcore.HandleMessagesUntilEOF`) between the reader and the writers. -/
+theorem tie_guards_fanout : type_of% Ntrip.Guards.fanout := Ntrip.Guards.fanout
+
+/-- Tie T1: what `Handle` hands over — single bytes by value, from the read loop itself. -/
+theorem tie_reader_handover :
+    Gen.sent_fh_Handler_Handle = some ["go handler.RTCMHandler.HandleMessages()", "byteChan <- buf[0]"] := by decide
 
 end Ntrip.C10
